@@ -118,6 +118,12 @@ Theorem C17_ultra_S_correct_upto64 : forall N lam c, (N <= 64)%nat -> (lam = 1 \
 Proof. exact ultra_S_correct_upto64. Qed.
 Print Assumptions C17_ultra_S_correct_upto64.
 
+Theorem C17_ultra_diff_mapped_upto64 : forall N p c fac off, (N <= 64)%nat -> (p = 1 \/ p = 2 \/ p = 3)%nat -> ~ fac == 0 ->
+  peq (pderiv_n p (pcomp_aff (/ fac) (- off / fac) (pseries chebT c N)))
+      (pcomp_aff (/ fac) (- off / fac) (pseries (geg p) (mv N (UD fac p) c) N)).
+Proof. exact ultra_diff_mapped_upto64. Qed.
+Print Assumptions C17_ultra_diff_mapped_upto64.
+
 (* Fourier: fftfreq ordering, (i k)^p, integration inverts differentiation off the zero mode *)
 Theorem C17_wavenumbers : forall N j, (j < N)%nat ->
   ((wavenum N j - Z.of_nat j) mod Z.of_nat N = 0 /\ - Z.of_nat N <= 2 * wavenum N j < Z.of_nat N)%Z.
